@@ -276,13 +276,15 @@ def c06_scope(tier):
     if tier == "quick":
         protos = ["small-lamp", "inserter", "power-switch"]
     enables = ["x > 3", "x >= y", "3 < x", "(x > 3) && (y < 2)", "x + y", "x", "(x > 3) : 5", "(x > 3) : -2",
-               "x * 0 + 1", "!(x == 4)", "(x > 1) || (y > 7)", "x - y > 0", "(x | \"signal-C\") > 2"]
+               "x * 0 + 1", "!(x == 4)", "(x > 1) || (y > 7)", "x - y > 0", "(x | \"signal-C\") > 2",
+               # integer conditions: positive = always on, zero / negative = never
+               "1", "0", "-1", "7 - 7", "2 > 1", "k", "k - 3"]
     P = []
     for i, pr in enumerate(protos):
         for j, en in enumerate(enables):
             if tier == "quick" and (i + j) % 2:
                 continue
-            P.append((f"{pr}:{en}", X + f'Entity e = place("{pr}", {2 * i}, {3 * j});\ne.enable = {en};\n'))
+            P.append((f"{pr}:{en}", X + ("int k = 3;\n" if "k" in en else "") + f'Entity e = place("{pr}", {2 * i}, {3 * j});\ne.enable = {en};\n'))
     P.append(("shared-sources", X + "".join(
         f'Entity l{k} = place("small-lamp", {2 * k}, 0);\nl{k}.enable = x > {k};\n' for k in range(4))))
     P.append(("shared-decider", X + 'Signal c = x > 3;\nEntity a = place("small-lamp", 0, 0);\na.enable = c;\n'
